@@ -162,6 +162,12 @@ pub fn make_config(k: &PcKnobs, side: usize, plan: &Plan) -> RtcConfiguration {
     if let Some(v) = plan.knobs.get("ice_connection_timeout_ms") {
         c.ice_connection_timeout = std::time::Duration::from_millis(*v as u64);
     }
+    // knob turn (1 = UDP, 2 = TCP): side 0 is configured with the TURN server 10.0.0.50:3478 that the scenario plays
+    match (plan.knob("turn", 0), side) {
+        (1, 0) => c.ice_servers = vec![rustrtc::IceServer::new(vec!["turn:10.0.0.50:3478".to_string()]).with_credential("simuser", "simpass")],
+        (2, 0) => c.ice_servers = vec![rustrtc::IceServer::new(vec!["turn:10.0.0.50:3478?transport=tcp".to_string()]).with_credential("simuser", "simpass")],
+        _ => {}
+    }
     c
 }
 
